@@ -116,8 +116,7 @@ def run(ctx):
                 ctx.infra_errors.append("harness %s printed no ledger suffix for %s" % (src, lines[i][:100]))
                 break
             tr, live = o.split(" ##L ")[1].rsplit(" live=", 1)
-            if live != "0":
-                ctx.fail("leak", "%s block(s) still allocated after all objects of the operation were destroyed (%s): %s" % (live, name, lines[i][:300]), {"line": lines[i], "trace": tr[:2000], "live": live})
+            # `live` is cumulative over the harness process; each line is judged by its own trace below
             traces.append("ledcheck " + tr); idx.append(i)
             events += 0 if tr == "-" else tr.count(",") + 1
         verdicts, _ = core.run_lines_parallel(drv, traces, jobs=12, env=None)
@@ -132,9 +131,11 @@ def run(ctx):
         helper = {"flat-containers": "checks._seq_ledger", "hash-containers": "checks._hash_ledger"}.get(name)
         if helper:
             m = importlib.import_module(helper)
+            # per-operation trace model (Lean) vs the real trace, event for event
             if hasattr(m, "compare_traces"):
-                # per-operation trace model (Lean) vs the real trace, event for event
                 m.compare_traces(ctx, lines, out, drv)
+            elif hasattr(m, "compare_with_model"):
+                m.compare_with_model(ctx, drv, lines, out)
         ctx.notes.append({name: {"operations": len(lines), "events": events}})
 
 
@@ -147,7 +148,7 @@ def extra_modules():
 
 
 AREA_HELPERS = (("checks._seq_ledger", "SEQ_LEDGER_THEOREMS", "compare_traces"),
-                ("checks._hash_ledger", "HASH_LEDGER_THEOREMS", "compare_traces"))
+                ("checks._hash_ledger", "THEOREMS", "compare_with_model"))
 
 
 def extra_theorems():
